@@ -7,10 +7,12 @@ import (
 	"net"
 	"reflect"
 	"sort"
+	"strconv"
 	"strings"
 	"sync"
 	"testing"
 	"time"
+	"unicode"
 
 	"go.miragespace.co/specter/spec/chord"
 	"go.miragespace.co/specter/spec/protocol"
@@ -294,7 +296,7 @@ func (f *c25Fault) install(kv *fakeNode) func() int {
 
 func TestC25(t *testing.T) {
 	rec := ev.New(t, "C25")
-	rec.Rule("every method of TunnelService and KeylessService (enumerated by reflection) x caller class {no delegation (direct handler + hook call), no certificate, certificate whose token was never registered (fresh / extension / prefix of a registered token / v2 form), certificate without a usable identity, registered (v1, v2, pre-PKI record)} x storage fault {none; Get / all reads / all operations failing, for the token key only or any key, first call or every call, with a plain, retryable-chord, node-gone or deadline error} x request body from a generic protoreflect filler (biased to registered hostnames and known node addresses), through the real path DynamicTunnelClient -> transport -> StreamRouter -> http.Server/chi (recoverer, limiter, 1 KiB body limit) -> twirp hook -> handler. First a deterministic sweep of all method x class pairs with an empty body, then rapid-generated cases. Non-trivial: a method outside the {Ping, RegisterIdentity} allow-list whose body is non-empty (or whose request type has no fields at all). Distinct = (method, class, caller variant, body bytes).")
+	rec.Rule("every method of TunnelService and KeylessService (enumerated by reflection) x caller class {no delegation (direct handler + hook call), no certificate, certificate whose token was never registered (fresh / extension / prefix of a registered token / v2 form / near-collisions of five registered tokens [plain, legacy base64 with slashes, non-ASCII, pre-PKI, v2] under 34 transformations: path-unclean forms, case, whitespace, truncation/extension, padding, percent-encoding, unicode decomposition and look-alikes, alphabet swaps), certificate without a usable identity, registered (v1, v2, pre-PKI record)} x storage fault {none; Get / all reads / all operations failing, for the token key only or any key, first call or every call, with a plain, retryable-chord, node-gone or deadline error} x request body from a generic protoreflect filler (biased to registered hostnames and known node addresses), through the real path DynamicTunnelClient -> transport -> StreamRouter -> http.Server/chi (recoverer, limiter, 1 KiB body limit) -> twirp hook -> handler. First a deterministic sweep of all method x class pairs with an empty body, then rapid-generated cases. Non-trivial: a method outside the {Ping, RegisterIdentity} allow-list whose body is non-empty (or whose request type has no fields at all). Distinct = (method, class, caller variant, body bytes).")
 	rec.Assume("a refusal by the authentication gate is observable as a twirp `unauthenticated` error on the wire (as the hook and extractAuthenticated produce), and as any error for a handler/hook invoked without a delegation",
 		"under an injected storage fault any refusal code is accepted for callers that must be refused; a registered caller may then be refused too, and a call the gate refuses (unauthenticated) must still change nothing",
 		"the transport has verified the certificate chain; the server sees only the parsed certificate",
@@ -329,11 +331,13 @@ func TestC25(t *testing.T) {
 	regV1 := newClientV1("R1", 1001, "tok-registered-one")
 	regV2 := newClientV2("R2", 1002, []byte("0123456789abcdef0123456789abcdef"))
 	regOld := newClientV1("R3", 1003, "tok-registered-old-format")
+	regSlash := newClientV1("R4", 1004, "ab/cd+EF/gh==") // legacy standard-base64 token
+	regUni := newClientV1("R5", 1005, "tök-Régistered élan")
 	methodByName := map[string]rpcMethod{}
 	for _, m := range env.methods {
 		methodByName[m.Name] = m
 	}
-	for _, c := range []*client{regV1, regV2} {
+	for _, c := range []*client{regV1, regV2, regSlash, regUni} {
 		env.curCert, env.noCert = c, false
 		if _, err := env.callThrough(methodByName["RegisterIdentity"], &protocol.RegisterIdentityRequest{}); err != nil {
 			t.Fatalf("set-up: RegisterIdentity(%s): %v", c.Name, err)
@@ -345,7 +349,7 @@ func TestC25(t *testing.T) {
 		b, _ := old.MarshalVT()
 		fx.kv.MemoryKV.Put(context.Background(), []byte("/tunnel/client/token/"+regOld.Token), b)
 	}
-	registered := []*client{regV1, regV2, regOld}
+	registered := []*client{regV1, regV2, regOld, regSlash, regUni}
 	// give the registered clients hostnames, so that bodies can name real things
 	for _, c := range []*client{regV1, regV2} {
 		for i := 0; i < 2; i++ {
@@ -361,13 +365,118 @@ func TestC25(t *testing.T) {
 
 	// tokens that became registered during the run (RegisterIdentity is open to
 	// any certificate holder); the caller class is decided against this model
-	registeredTokens := map[string]bool{regV1.Token: true, regV2.Token: true, regOld.Token: true}
+	registeredTokens := map[string]bool{regV1.Token: true, regV2.Token: true, regOld.Token: true, regSlash.Token: true, regUni.Token: true}
+	// near-collisions: never-registered tokens derived from a registered one by a
+	// transformation that some key-building or comparison routine might undo
+	nearBases := []*client{regV1, regSlash, regUni, regOld, regV2}
+	type tokenTransform struct {
+		name string
+		fn   func(string) string
+	}
+	swapCase := func(s string) string {
+		return strings.Map(func(r rune) rune {
+			switch {
+			case unicode.IsUpper(r):
+				return unicode.ToLower(r)
+			case unicode.IsLower(r):
+				return unicode.ToUpper(r)
+			}
+			return r
+		}, s)
+	}
+	firstSep := func(s string) int { return strings.IndexAny(s, "/-:") }
+	nearTransforms := []tokenTransform{
+		{"double-slash", func(s string) string { return strings.Replace(s, "/", "//", 1) }},
+		{"all-double-slash", func(s string) string { return strings.ReplaceAll(s, "/", "//") }},
+		{"trailing-slash", func(s string) string { return s + "/" }},
+		{"trailing-slash-dot", func(s string) string { return s + "/." }},
+		{"leading-dot-slash", func(s string) string { return "./" + s }},
+		{"leading-slash", func(s string) string { return "/" + s }},
+		{"dot-segment", func(s string) string {
+			if i := strings.Index(s, "/"); i >= 0 {
+				return s[:i] + "/./" + s[i+1:]
+			}
+			return s + "/./"
+		}},
+		{"dotdot-segment", func(s string) string { return "x/../" + s }},
+		{"inner-dotdot-segment", func(s string) string {
+			if i := strings.Index(s, "/"); i >= 0 {
+				return s[:i] + "/y/../" + s[i+1:]
+			}
+			return s + "/y/.."
+		}},
+		{"backslash", func(s string) string { return strings.ReplaceAll(s, "/", "\\") }},
+		{"percent-encoded-slash", func(s string) string { return strings.ReplaceAll(s, "/", "%2F") }},
+		{"percent-encoded-char", func(s string) string { return fmt.Sprintf("%%%02X", s[0]) + s[1:] }},
+		{"upper-case", strings.ToUpper},
+		{"lower-case", strings.ToLower},
+		{"swap-case", swapCase},
+		{"leading-space", func(s string) string { return " " + s }},
+		{"trailing-space", func(s string) string { return s + " " }},
+		{"trailing-tab", func(s string) string { return s + "\t" }},
+		{"trailing-newline", func(s string) string { return s + "\n" }},
+		{"inner-space", func(s string) string {
+			if i := firstSep(s); i >= 0 {
+				return s[:i] + " " + s[i:]
+			}
+			return s[:1] + " " + s[1:]
+		}},
+		{"drop-last", func(s string) string { return s[:len(s)-1] }},
+		{"drop-first", func(s string) string { return s[1:] }},
+		{"append-char", func(s string) string { return s + "x" }},
+		{"append-padding", func(s string) string { return s + "=" }},
+		{"strip-padding", func(s string) string { return strings.TrimRight(s, "=") }},
+		{"nfd-decomposed", func(s string) string {
+			return strings.NewReplacer("é", "e\u0301", "ö", "o\u0308", "É", "E\u0301").Replace(s)
+		}},
+		{"ascii-folded", func(s string) string { return strings.NewReplacer("é", "e", "ö", "o", "É", "E").Replace(s) }},
+		{"fullwidth-first", func(s string) string {
+			r := []rune(s)
+			if r[0] > 0x20 && r[0] < 0x7f {
+				r[0] += 0xfee0
+			}
+			return string(r)
+		}},
+		{"cyrillic-lookalike", func(s string) string {
+			return strings.NewReplacer("a", "а", "e", "е", "o", "о", "c", "с").Replace(s)
+		}},
+		{"zero-width-space", func(s string) string { return s + "\u200b" }},
+		{"trailing-nul", func(s string) string { return s + "\x00" }},
+		{"plus-for-space", func(s string) string { return strings.ReplaceAll(s, " ", "+") }},
+		{"space-for-plus", func(s string) string { return strings.ReplaceAll(s, "+", " ") }},
+		{"base64url-alphabet", func(s string) string { return strings.NewReplacer("/", "_", "+", "-").Replace(s) }},
+	}
+	const baseVariants = 5
+	nNear := len(nearBases) * len(nearTransforms)
 	// ri = the call is RegisterIdentity itself: it uses a disjoint token family so
 	// that the tokens of the "never registered" class stay unregistered
 	unregisteredVariant := func(v int, salt string, ri bool) (*client, string) {
 		fam := ""
 		if ri {
 			fam = "-ri"
+		}
+		if v >= baseVariants {
+			k := (v - baseVariants) % nNear
+			base, tr := nearBases[k%len(nearBases)], nearTransforms[k/len(nearBases)]
+			tok := tr.fn(base.Token)
+			label := "near-collision:" + tr.name + ":" + base.Name
+			var c *client
+			if base == regV2 {
+				// v2: the token is the whole common name; keep it parseable as v2
+				cn := tr.fn(base.CN) + fam
+				if !strings.HasPrefix(cn, "v2:"+strconv.FormatUint(base.ID, 10)+":") {
+					cn = "v2:" + strconv.FormatUint(base.ID, 10) + ":" + tr.fn(strings.SplitN(base.CN, ":", 3)[2]) + fam
+				}
+				c = &client{Name: "U", ID: base.ID, Token: cn, CN: cn, cert: certWithCN(cn)}
+			} else {
+				c = newClientV1("U", base.ID, tok+fam)
+			}
+			if !registeredTokens[c.Token] || ri {
+				return c, label
+			}
+			// the transformation is the identity on this token (or produced another
+			// registered token): not a never-registered caller, fall back
+			v = 0
 		}
 		switch v {
 		case 0:
@@ -429,7 +538,7 @@ func TestC25(t *testing.T) {
 			env.curCert, env.noCert = nil, true
 			vlabel = "nil-certificate"
 		case clUnregistered:
-			env.curCert, vlabel = unregisteredVariant(variant%5, salt, m.Name == "RegisterIdentity")
+			env.curCert, vlabel = unregisteredVariant(variant%(baseVariants+nNear), salt, m.Name == "RegisterIdentity")
 			env.noCert = false
 			if registeredTokens[env.curCert.Token] && !c25AllowListed(m.Name) {
 				t.Fatalf("harness: token %q of the never-registered class is registered", env.curCert.Token)
@@ -549,14 +658,17 @@ func TestC25(t *testing.T) {
 			nv := 1
 			switch class {
 			case clUnregistered:
-				nv = 5
+				nv = baseVariants + nNear
 			case clBadCN:
 				nv = len(badCNs)
 			case clRegistered:
 				nv = len(registered)
 			}
 			for v := 0; v < nv; v++ {
-				for _, f := range sweepFaults {
+				for fi, f := range sweepFaults {
+					if class == clUnregistered && v >= baseVariants && fi > 0 {
+						break // near-collision tokens: healthy storage only in the sweep
+					}
 					checkOne(t, m, class, v, "sweep", m.newRequest(), f)
 				}
 			}
@@ -566,7 +678,7 @@ func TestC25(t *testing.T) {
 	ev.RapidCheck(t, 2500, 60000, func(t *rapid.T) {
 		m := env.methods[rapid.IntRange(0, len(env.methods)-1).Draw(t, "method")]
 		class := c25Classes[rapid.IntRange(0, len(c25Classes)-1).Draw(t, "class")]
-		variant := rapid.IntRange(0, 9).Draw(t, "variant")
+		variant := rapid.IntRange(0, 4*(baseVariants+nNear)-1).Draw(t, "variant")
 		salt := rapid.StringOfN(rapid.RuneFrom([]rune("abc012")), 0, 3, 3).Draw(t, "salt")
 		req := m.newRequest()
 		fillMessage(t, req.ProtoReflect(), 0, env.dict, m.Name)
